@@ -107,7 +107,7 @@ def build(ctx, rng, cond, shape=(3, 2, 2)):
     elif cond == 'dirs_lost':
         # whole directory chains of recorded files are gone: check / scrub / sync report the files, nothing re-creates the directories
         shutil.rmtree(a.path(a.disks[0], 'dir'))
-        shutil.rmtree(a.path(a.disks[1], 'dir', 'sub'))
+        shutil.rmtree(a.path(a.disks[1], 'dir/sub'))
         shutil.rmtree(a.path(a.disks[nd - 1], 'emptydir%d' % (nd - 1)))
     elif cond == 'data_and_parity_damaged':
         # silent damage in data AND in the parity of the same stripes: fix has to find out which is wrong
@@ -914,6 +914,11 @@ def scenario_pool_history(ctx, seed, order):
     def put(d, n, size=600):
         k[0] += 1
         p = a.path(d, n)
+        parts = n.split('/')
+        for j in range(1, len(parts)):               # an ancestor that is a file or a link now becomes a directory
+            ap = a.path(d, '/'.join(parts[:j]))
+            if os.path.lexists(ap) and (os.path.islink(ap) or not os.path.isdir(ap)):
+                os.unlink(ap)
         if os.path.isdir(p) and not os.path.islink(p):
             shutil.rmtree(p)
         elif os.path.lexists(p):
@@ -934,19 +939,37 @@ def scenario_pool_history(ctx, seed, order):
         elif i == 1:      # file -> directory on both disks; symlink -> directory; nested -> file; file -> nested
             rm('d1', 'a'); put('d1', 'a/x'); put('d2', 'a/y')
             rm('d2', 'ln'); put('d2', 'ln/w'); put('d1', 'ln/v')
-            rm('d1', 'n'); put('d1', 'n')
+            rm('d1', 'n'); rm('d2', 'n'); put('d1', 'n')
             rm('d2', 'n2'); put('d2', 'n2/q/r'); put('d1', 'n2/s')
         elif i == 2:      # directory -> file; directory -> symlink; deeper nesting under a former file
-            rm('d1', 'b'); put('d1', 'b'); put('d2', 'b/z/zz')
+            rm('d1', 'b'); rm('d2', 'b'); put('d1', 'b')
             rm('d1', 'a'); rm('d2', 'a'); put('d2', 'a')
-            rm('d2', 'deep'); os.symlink('k', a.path('d2', 'deep')); put('d1', 'deep/er/file/now/dir')
+            rm('d2', 'deep'); put('d2', 'deep/er/file/now/dir'); put('d1', 'deep/er/other')
+            rm('d1', 'n2'); rm('d2', 'n2'); os.symlink('k', a.path('d1', 'n2'))
         elif i == 3:      # back again, other disk
             rm('d2', 'a'); put('d1', 'a/y/z'); put('d2', 'a/y/w')
             rm('d1', 'n'); put('d2', 'n/m/f'); rm('d1', 'ln'); rm('d2', 'ln'); os.symlink('a', a.path('d1', 'ln'))
             rm('d2', 'b'); rm('d1', 'b'); put('d1', 'b/x')
+    def resolve_conflicts():
+        # a name may be a directory on both disks; any other clash (file / link on one disk, something on the other) cannot be
+        # pooled and is not what this family is about: drop the second disk's object
+        b1, b2 = a.path('d1', ''), a.path('d2', '')
+        for root, dirs, files in os.walk(b2):
+            for n in list(dirs) + files:
+                p2 = os.path.join(root, n)
+                p1 = os.path.join(b1, os.path.relpath(p2, b2))
+                if os.path.lexists(p1):
+                    d1dir = os.path.isdir(p1) and not os.path.islink(p1)
+                    d2dir = os.path.isdir(p2) and not os.path.islink(p2)
+                    if not (d1dir and d2dir):
+                        if d2dir:
+                            shutil.rmtree(p2); dirs.remove(n)
+                        else:
+                            os.unlink(p2)
     try:
         for i in order:
             step(i)
+            resolve_conflicts()
             r = a.run('sync', '--force-empty', '--force-zero')
             if r.rc != 0:
                 raise RuntimeError('sync of step %d failed: %r' % (i, r))
